@@ -104,7 +104,12 @@ def run(ctx):
     def big(draw):
         dtype = draw(st.sampled_from(["int", "float"]))
         k = draw(st.integers(2, 12))
-        if dtype == "int":
+        huge = dtype == "int" and draw(st.integers(0, 4)) == 0
+        if huge:
+            # integers beyond 2**53: neighbouring values are different integers but the same double
+            base = draw(st.sampled_from([2**53, 2**53 - 3, 2**60, -2**53, 2**62]))
+            alpha = draw(st.lists(st.integers(base - 6, base + 6), min_size=k, max_size=k, unique=True))
+        elif dtype == "int":
             alpha = draw(st.lists(st.integers(-50, 50), min_size=k, max_size=k, unique=True))
         else:
             alpha = draw(st.lists(st.floats(-1e6, 1e6, allow_nan=False, width=64), min_size=k, max_size=k, unique=True))
@@ -124,8 +129,8 @@ def run(ctx):
             idx = [idx[(j * stride) % n] for j in range(n)] if n % stride else idx
         xs = [alpha[i] for i in idx]
         s = sorted(set(xs))
-        qs = [s[0] - 1] + s + [s[-1] + 1] + [(a + b) / 2 for a, b in zip(s, s[1:])]
-        extra = draw(st.lists(st.floats(-1e6, 1e6, allow_nan=False), max_size=3))
+        qs = [s[0] - 1] + s + [s[-1] + 1] + ([] if huge else [(a + b) / 2 for a, b in zip(s, s[1:])])
+        extra = [] if huge else draw(st.lists(st.floats(-1e6, 1e6, allow_nan=False), max_size=3))
         return {"x": xs, "q": sorted(set(qs + extra))[:40], "dtype": dtype,
                 "container": draw(st.sampled_from(["list", "ndarray"]))}
 
